@@ -18,9 +18,10 @@
 (*      4 bottom of the circle; descriptors from the specification) the    *)
 (*      returned value equals to 1e-12.                                    *)
 (*                                                                         *)
-(* Variants v: 1 as generated, 2..NV-1 exact metamorphic images (endpoint  *)
-(* swap, arc swap, quarter turns about the polar axis), NV a rotation      *)
-(* about the polar axis by a generic angle (applied to the floats).  The   *)
+(* Variants v: 1 as generated, 2..nx exact metamorphic images (endpoint    *)
+(* swap, arc swap, quarter turns about the polar axis), then perturbed     *)
+(* replays: jv = every float coordinate jittered by a few ulps, NV = a     *)
+(* rotation about the polar axis by a generic angle (on the floats).  The  *)
 (* expected answer is the same for all of them (laws model-checked in      *)
 (* ArcScope.tla; the rotation by a generic angle is an isometry fixing     *)
 (* the poles).  A case is judged only if the exact classification clears   *)
@@ -39,6 +40,13 @@ VARIABLE i      \* < 0: block marker, > 0: record index
 
 Has(r, f) == f \in DOMAIN r
 TiltVariant == 9
+\* variants 1..NX(r) are exact images (compared among themselves: <<"Invariance", 0>>); the later ones are
+\* perturbed replays, each compared with the base: the ulp jitter (index r.jv, clause "JitterStable": every
+\* coordinate of every input moved by a few ulps, exact zeros by a few 1e-16, then renormalised -- nine
+\* orders of magnitude below the margin, so no answer may change) and the generic polar rotation ("Invariance")
+NX(r, nv) == IF Has(r, "nx") THEN r.nx ELSE nv - 1
+JV(r)     == IF Has(r, "jv") THEN r.jv ELSE 0
+InvName(r, v) == IF v = JV(r) THEN "JitterStable" ELSE "Invariance"
 Range(s)  == { s[k] : k \in DOMAIN s }
 Vec3(s)   == << s[1], s[2], s[3] >>
 ValidArc(a, b) == Judgeable(a) /\ Judgeable(b) /\ IsArc(a, b) /\ ArcMargin(a, b)
@@ -53,8 +61,8 @@ MFails(r, j) ==
     IN { <<"NoRaise", v>> : v \in { w \in 1..nv : got(w) = 2 } }
        \cup { <<IF want = 1 THEN "OnArcReported" ELSE "OffArcRejected", v>> :
                  v \in { w \in 1..nv : got(w) # 2 /\ got(w) # want } }
-       \cup (IF \E v \in 2..(nv - 1) : got(v) # got(1) THEN { <<"Invariance", 0>> } ELSE {})
-       \cup (IF got(nv) # got(1) THEN { <<"Invariance", nv>> } ELSE {})
+       \cup (IF \E v \in 2..NX(r, nv) : got(v) # got(1) THEN { <<"Invariance", 0>> } ELSE {})
+       \cup { <<InvName(r, v), v>> : v \in { w \in (NX(r, nv) + 1)..nv : got(w) # got(1) } }
        \* r.t[j]: the same query point tilted out of the arc's plane by TiltRad (2e-6 rad, twice the
        \* property's margin; every judged lattice point is >= 1e-4 rad from any other boundary): it is
        \* off the great circle with margin, whatever its class was
@@ -98,8 +106,8 @@ XFails(r, j) ==
                     [] k \in {1, 2} /\ got(v)[1] = 1 /\ got(v)[2] # k -> "PointOnBothArcs"
                     [] OTHER -> "ok"
     IN { <<bad(v), v>> : v \in { w \in 1..nv : bad(w) # "ok" } }
-       \cup (IF \E v \in 2..(nv - 1) : got(v) # got(1) THEN { <<"Invariance", 0>> } ELSE {})
-       \cup (IF got(nv) # got(1) THEN { <<"Invariance", nv>> } ELSE {})
+       \cup (IF \E v \in 2..NX(r, nv) : got(v) # got(1) THEN { <<"Invariance", 0>> } ELSE {})
+       \cup { <<InvName(r, v), v>> : v \in { w \in (NX(r, nv) + 1)..nv : got(w) # got(1) } }
 JudgeX(r) ==
     LET a == Vec3(r.a)  b == Vec3(r.b)
         code(j) == PairCode(a, b, Vec3(r.o[j][1]), Vec3(r.o[j][2]))
@@ -122,8 +130,8 @@ LFails(r) ==
     IN { <<"NoRaise", v>> : v \in { w \in 1..nv : r.r[w][3] = 1 } }
        \cup { <<"MaxLatitude", v>> : v \in { w \in 1..nv : r.r[w][3] = 0 /\ ~okmax(w) } }
        \cup { <<"MinLatitude", v>> : v \in { w \in 1..nv : r.r[w][3] = 0 /\ ~okmin(w) } }
-       \cup (IF \E v \in 2..(nv - 1) : st(v) # st(1) THEN { <<"Invariance", 0>> } ELSE {})
-       \cup (IF st(nv) # st(1) THEN { <<"Invariance", nv>> } ELSE {})
+       \cup (IF \E v \in 2..NX(r, nv) : st(v) # st(1) THEN { <<"Invariance", 0>> } ELSE {})
+       \cup { <<InvName(r, v), v>> : v \in { w \in (NX(r, nv) + 1)..nv : st(w) # st(1) } }
 JudgeL(r) ==
     LET a == Vec3(r.a)  b == Vec3(r.b) IN
     IF ~ValidArc(a, b) THEN PrintT(<<"S", r.id, "L", "notarc", 0, 1, 0>>)
